@@ -83,7 +83,7 @@ def set (j : JV) (k : String) (v : JV) : JV :=
 
 def delKV (k : String) : List (String × JV) → List (String × JV)
   | [] => []
-  | (l, w) :: rest => if l == k then rest else (l, w) :: delKV k rest
+  | (l, w) :: rest => if l == k then delKV k rest else (l, w) :: delKV k rest
 
 /-- `del(.k)` -/
 def del (j : JV) (k : String) : JV :=
